@@ -5,26 +5,30 @@ from .. import common as C
 from .. import e2e
 
 MANIFEST = dict(
-    text="Lean 4 theorems over (1) a byte-level model of the frame reader of h2.c (h2_parse_frames: 9-octet header, "
-         "size limit, incomplete-frame wait, h2_recv_continuation scan / padding removal / merge) -- segmentation "
-         "independence for ALL splits of the octet stream across reads, round trip against a reference encoder, "
-         "FRAME_SIZE_ERROR / CONTINUATION / padding errors -- and (2) a frame-level state machine of h2.c (dispatch, "
-         "per-type validation, stream admission/refusal, trailers, GOAWAY/RST semantics, response emission by "
-         "h2_process_streams) checked against an RFC 9113 monitor: HEADERS before DATA, END_STREAM once, nothing "
-         "but RST_STREAM/WINDOW_UPDATE after it, frame size bound, SETTINGS/PING acknowledged, id ordering, "
-         "concurrency limit, connection errors terminal; (1) and (2) composed (byte-level connection refines the "
-         "frame-level one under every segmentation).  Tied to the code by an in-process correspondence (real h2.c, "
-         "ASan/UBSan, client octets delivered in scripted read segments: whole, octet-wise, fixed sizes, cuts around "
-         "frame boundaries / header ends / Pad Length octets, all 2^k subsets of the k most interesting cut points) "
-         "and an end-to-end correspondence against the real server with a raw frame client (exhaustive short frame "
-         "sequences over an alphabet of valid and invalid frames + random long ones)",
-    note="trusted: Lean kernel, hand-written models validated in-process (every segmentation: identical outcome, = model) "
-         "and end-to-end (per quiescence point: control frames, per-stream status/DATA totals/END_STREAM), nghttp2 HPACK "
-         "in the e2e client, own HPACK mini-encoder in the in-process stream; HEADERS payloads abstract (HPACK is C07); "
-         "handlers in scope answer at once (static files, error pages; scripted producer in-process); time windows of "
-         "2 s (half_closed_ts, rapid-reset heuristic) are not advanced inside a scenario; TLS/ALPN entry not covered",
-    tech="Lean 4 proof (segmentation independence by prefix stability, invariant + monitor refinement) + in-process and "
-         "e2e correspondence against the real code",
+    text="Lean 4 theorems over (1) a byte-level model of the frame reader of h2.c (h2_parse_frames, h2_recv_continuation): "
+         "PROVED segmentation independence of the reader for all splits of the octet stream, round trip against a "
+         "reference encoder, FRAME_SIZE_ERROR / CONTINUATION / padding errors; (2) a frame-level state machine of h2.c "
+         "(dispatch, per-type validation, stream admission / refusal before and after the SETTINGS ack, trailers, "
+         "PRIORITY_UPDATE, GOAWAY/RST semantics, response emission by h2_process_streams with the DATA split of "
+         "h2_send_cqdata): PROVED over ALL connection histories: stream legality (HEADERS once and before DATA, nothing "
+         "but RST_STREAM/WINDOW_UPDATE after END_STREAM/RST_STREAM; monitor over all streams), concurrency bound, "
+         "connection errors terminal, peer frame-size limit within the RFC range; PROVED per pass / per frame: every "
+         "DATA frame <= the peer's current SETTINGS_MAX_FRAME_SIZE, header-block split (model function, tied to "
+         "h2_send_hpack by correspondence), PING echo with the same 8 octets, SETTINGS ack, the RFC-mandated connection "
+         "error visible as GOAWAY(code) for each malformed frame class; (1)+(2) composed (a step of octets in any read "
+         "segmentation = the frame-level step).  TESTED, not proved: that the chunk-oriented C code equals the models "
+         "(in-process correspondence under scripted read segmentations incl. all 2^k cut subsets, per-frame sizes, "
+         "event-loop emulation for progress; e2e correspondence against the real server), complete/correct responses "
+         "amid noise and progress (independent client-side oracle, STALL detector, PING probe)",
+    note="trusted: Lean kernel, hand-written models validated in-process (every segmentation: identical outcome, = model, "
+         "per-frame payload sizes) and end-to-end (per quiescence point: control frames, per-stream status/DATA totals/"
+         "END_STREAM), nghttp2 HPACK in the e2e client, own HPACK mini-encoder in the in-process stream; HEADERS payloads "
+         "abstract (HPACK is C07; response header block lengths are inputs of the split theorem); handlers in scope answer "
+         "at once (static files, error pages; scripted producer in-process); time windows of 2 s (half_closed_ts, "
+         "rapid-reset heuristic) are not advanced inside a scenario; TLS/ALPN entry not covered; no theorem for "
+         "completion/progress (fuel of the scheduler loop) -- tested only",
+    tech="Lean 4 proof (prefix stability for segmentation independence; invariant + all-streams monitor over histories) + "
+         "in-process and e2e correspondence against the real code",
     ref="6/C05")
 
 CONF = '''
@@ -646,6 +650,10 @@ class ClientView:
                 self._must(tok, "padding longer than the frame")
             elif contbad:
                 self._must(tok, "header block not continued by a CONTINUATION frame")
+            elif kind == "x":
+                # RFC 9113 4.3: a decoding error MUST be treated as a connection error (also in a block the
+                # server has no use for: the decoder state is the connection's)
+                self._must(tok, "header block that cannot be decoded")
             elif self.must is not None and sid > self.max_sid:
                 self.after_must.add(sid)
             if self.n_headers > 32:
